@@ -2047,6 +2047,16 @@ func (ls *LState) Status(th *LState) string {
 
 func (ls *LState) Resume(th *LState, fn *LFunction, args ...LValue) (ResumeState, error, []LValue) {
 	isstarted := th.isStarted()
+	if ls.G.CurrentThread == th {
+		return ResumeError, newApiErrorS(ApiErrorRun, "can not resume a running thread"), nil
+	}
+	if th.Dead {
+		return ResumeError, newApiErrorS(ApiErrorRun, "can not resume a dead thread"), nil
+	}
+	if ls.Status(th) == "normal" {
+		return ResumeError, newApiErrorS(ApiErrorRun, "can not resume a normal thread"), nil
+	}
+	// the frame of the body is pushed after the checks above, so that a refused resume leaves nothing behind
 	if !isstarted {
 		base := 0
 		th.stack.Push(callFrame{
@@ -2061,17 +2071,10 @@ func (ls *LState) Resume(th *LState, fn *LFunction, args ...LValue) (ResumeState
 			TailCall:   0,
 		})
 	}
-
-	if ls.G.CurrentThread == th {
-		return ResumeError, newApiErrorS(ApiErrorRun, "can not resume a running thread"), nil
-	}
-	if th.Dead {
-		return ResumeError, newApiErrorS(ApiErrorRun, "can not resume a dead thread"), nil
-	}
-	if ls.Status(th) == "normal" {
-		return ResumeError, newApiErrorS(ApiErrorRun, "can not resume a normal thread"), nil
-	}
 	if !resumeFits(th, len(args)) {
+		if !isstarted {
+			th.stack.Pop()
+		}
 		return ResumeError, newApiErrorS(ApiErrorRun, "too many arguments to resume"), nil
 	}
 	th.Parent = ls
